@@ -39,6 +39,10 @@ func Transcript(seed uint64, n int) int {
 		prop := props[i%len(props)]
 		r := core.NewRand(core.RunSeed(seed, "uisim-transcript", prop, i))
 		t := e.Generate(r, prop, "quick").(*Trace)
+		if t.Desc == nil { // a prompt-lab trace: no session to compare
+			skipped++
+			continue
+		}
 		var in []string
 		for _, ev := range t.Evs {
 			switch ev.K {
